@@ -9,6 +9,7 @@ import (
 	"os"
 	"strconv"
 	"strings"
+	"time"
 
 	"mellium.im/xmpp/jid"
 	"mellium.im/xmpp/mux"
@@ -99,7 +100,12 @@ func (g *firstGate) Token() (xml.Token, error) {
 	if !g.done {
 		g.done = true
 		g.ctl.Gate(g.label, "payload")
-		if <-g.fail {
+		fail := true
+		select {
+		case fail = <-g.fail:
+		default:
+		}
+		if fail {
 			return nil, errPayload
 		}
 	}
@@ -374,7 +380,7 @@ func runRcpt(r *common.Run, ids []int, sched []string, class string) {
 			}
 		}
 		rr.rs.In.Close()
-		rr.rs.S.Close()
+		common.WithTimeout(200*time.Millisecond, func() { rr.rs.S.Close() })
 	}()
 	for _, a := range sched {
 		if len(rr.problems) > 0 {
